@@ -134,6 +134,17 @@ def parseEv (tok : String) : Option Ev :=
   | 'Q' :: ds => (String.ofList ds).toNat?.map fun i => .query i (!failed)
   | _ => none
 
+/-- a log token with the connection it arrived on: the harness driver writes `O<i>` for a statement that reached a
+connection with no transaction open on it (connection 1 of the session model), everything else is on the
+transaction's connection 0 -/
+def parseEvC (tok : String) : Option (Nat × Ev) :=
+  match tok.toList with
+  | 'O' :: rest =>
+    let failed := rest.getLast? == some '!'
+    let ds := if failed then rest.dropLast else rest
+    (String.ofList ds).toNat?.map fun i => (1, Ev.exec i (!failed))
+  | _ => (parseEv tok).map fun e => (0, e)
+
 def parseLog (s : String) : Option (List Ev) :=
   if s = "-" then some [] else (s.splitOn ",").mapM parseEv
 
@@ -367,7 +378,10 @@ def runSection (r : Report) (s : Section) : Report := Id.run do
         continue
       -- a statement of the body that reached a connection with no transaction open on it (the harness driver logs
       -- O<i>) did not run inside the transaction
-      if ((kvStr l.obs "log" "").splitOn ",").any (fun t => t.startsWith "O") then
+      -- (evaluated with the model's `outsideTx`, which `Props.statements_inside_the_transaction` proves empty)
+      if (match ((kvStr l.obs "log" "").splitOn ",").mapM parseEvC with
+          | some tagged => !(outsideTx none tagged).isEmpty
+          | none => ((kvStr l.obs "log" "").splitOn ",").any (fun t => t.startsWith "O")) then
         r := r.mismatch s.idx l.idx "statements-inside-the-transaction" impl
         r := r.violation s.idx l.idx s!"clauses=[statement-outside-transaction] impl=[{impl}] op=[{joinSp l.op}]"
         continue
